@@ -41,6 +41,23 @@ static std::string res2(T v)
 {
   return std::string(kname<std::remove_cv_t<T>>::get()) + ":" + show_int(v);
 }
+// floating-point family: operands arrive as IEEE bit patterns (float: 32, double: 64) or as integers
+#include <cmath>
+template<typename T>
+static T parse_num(const std::string& s)
+{
+  if constexpr (std::is_same_v<T, float>) { uint32_t b = static_cast<uint32_t>(std::stoull(s)); float f; std::memcpy(&f, &b, 4); return f; }
+  else if constexpr (std::is_same_v<T, double>) { uint64_t b = std::stoull(s); double d; std::memcpy(&d, &b, 8); return d; }
+  else return parse_int<T>(s);
+}
+// "<type>:<value>": floating values as their bit pattern, every NaN as "nan"
+template<typename T>
+static std::string fres(T v)
+{
+  if constexpr (std::is_same_v<T, float>) { if (std::isnan(v)) return "float:nan"; uint32_t b; std::memcpy(&b, &v, 4); return "float:" + std::to_string(b); }
+  else if constexpr (std::is_same_v<T, double>) { if (std::isnan(v)) return "double:nan"; uint64_t b; std::memcpy(&b, &v, 8); return "double:" + std::to_string(b); }
+  else return res2(v);
+}
 static uint64_t fold(const std::string& s)
 {
   // the value part after the first ':' (and a second value for inc/dec), folded into 64 bits
